@@ -6,6 +6,14 @@
 #include "type.h"
 #include "predicate.h"
 #include "field.h"
+#ifdef BUILD_LISTENERS
+#include "solver_listener.h"
+#include "atom_flaw.h"
+#endif
+#ifdef WITH_EXECUTOR
+#include "executor.h"
+#include "executor_listener.h"
+#endif
 #include <z3++.h>
 #include <algorithm>
 
@@ -495,11 +503,15 @@ namespace
   }
 
   std::function<void(ratio::solver &)> g_after_solve; // reads more of the solution while the solver is alive (timelines layer)
+  std::function<void(ratio::solver &)> g_on_solver;   // called right after the solver is created (installs listeners)
+  std::function<void()> g_on_solver_gone;             // called before the solver is destroyed
 
   Outcome run(const Problem &p, const std::string &text, const std::string &ctext)
   {
     Outcome out;
     ratio::solver s;
+    struct Gone { ~Gone() { if (g_on_solver_gone) g_on_solver_gone(); } } gone; // listeners go before the solver
+    if (g_on_solver) g_on_solver(s);
     try
     {
       s.read(text);
@@ -726,6 +738,8 @@ namespace
 
 #include "h_prob_objects.inc" // NOLINT: class / instance / object-variable layer of the generator
 #include "h_prob_timelines.inc" // NOLINT: StateVariable / ReusableResource layer and the plan validators
+#include "h_prob_rules.inc"     // NOLINT: predicates with rules, facts, goals; derivation-structure checks (C03)
+#include "h_prob_exec.inc"      // NOLINT: executor scenario (C19)
 
   // =====================================================================================================================
   // the case
@@ -738,10 +752,31 @@ namespace
     std::string layer = o.get("layer", "L0");
     if (P == "C16") layer = "eval";
     if (P == "C17") layer = "L1";
-    if (P == "C04" || P == "C05" || P == "C06") layer = "L3";
+    if (P == "C04" || P == "C05" || P == "C06" || P == "C19") layer = "L3";
+    if (P == "C03") layer = "L2";
     p.planted = layer == "L3" ? true : (P == "C02" ? t.chance(1, 2) : t.chance(2, 3));
     Timelines tl;
-    if (layer == "eval")
+    Rules rl;
+    std::vector<std::string> c03, c19;
+    std::ostringstream xlog;
+    g_c03_struct.clear();
+    g_patoms.clear();
+    if (layer == "L2")
+    {
+      gen_rules(g, rl);
+#ifdef BUILD_LISTENERS
+      g_on_solver = [](ratio::solver &s) { g_rec = new Recorder(s); };
+      g_on_solver_gone = []() { delete g_rec; g_rec = nullptr; };
+      r.classes.insert("derivation structure recorded through the solver listener");
+#endif
+      g_after_solve = [&rl](ratio::solver &s) {
+        read_atoms(s, rl);
+#ifdef BUILD_LISTENERS
+        check_structure(s);
+#endif
+      };
+    }
+    else if (layer == "eval")
     {
       p.planted = true;
       g.pinned();
@@ -765,6 +800,28 @@ namespace
       gen_timelines(g, tl);
       g_plan = Plan();
       g_after_solve = [&tl](ratio::solver &s) { read_plan(s, tl, g_plan); };
+#ifdef WITH_EXECUTOR
+      if (P == "C19")
+      {
+        static const long un[] = {1, 1, 2};
+        static const long ud[] = {1, 2, 1};
+        unsigned ui = t.pick(3);
+        smt::rational upt(un[ui], ud[ui]);
+        const bool one_delay = o.has("one_delay_per_tick");
+        const bool last_only = o.has("adapt_only_last_pending");
+        g_on_solver = [&t, upt, one_delay, last_only](ratio::solver &s) {
+          g_executor.reset(new ratio::executor(s, upt));
+          g_erec.reset(new ExecRec(*g_executor, s, t, upt));
+          g_erec->one_delay_per_tick = one_delay;
+          g_erec->adapt_only_last_pending = last_only;
+        };
+        g_on_solver_gone = []() { g_erec.reset(); g_executor.reset(); };
+        g_after_solve = [&](ratio::solver &s) {
+          read_plan(s, tl, g_plan);
+          run_execution(s, t, tl, c19, r, xlog);
+        };
+      }
+#endif
     }
     else
     {
@@ -779,6 +836,17 @@ namespace
     Outcome out = run(p, text, ctext);
     log << "-- verdict: " << (out.verdict == SOLVED ? "solved" : out.verdict == UNSOLVABLE ? "unsolvable" : "rejected") << (out.error.empty() ? "" : " (" + out.error + ")") << "\n";
     if (out.verdict == SOLVED) log << "-- values: " << show_values(out) << "\n";
+    log << xlog.str();
+    if (layer == "L2" && out.verdict == SOLVED)
+    {
+      for (auto &a : g_patoms)
+      {
+        log << "-- atom " << a.pred << "(";
+        for (auto &kv : a.args) log << kv.first << "=" << kv.second << " ";
+        log << ") " << (a.state == 1 ? "Active" : a.state == 0 ? "Unified" : "Inactive") << "\n";
+      }
+      check_rules(rl, c03, r);
+    }
     std::vector<std::string> c01, c02, c16, c17, c18, c04, c05, c06;
     bool evaluated_mixed = false;
     if (out.verdict == REJECTED)
@@ -829,7 +897,7 @@ namespace
     {
       if (p.planted)
         c02.push_back("a problem built around a known solution was declared unsolvable (" + out.error + ")");
-      else if (layer != "L3")
+      else if (layer != "L3" && layer != "L2")
       {
         Z z(p);
         if (z.satisfiable() == z3::sat)
@@ -847,6 +915,8 @@ namespace
     if (P == "C04") own(c04); else foreign(c04);
     if (P == "C05") own(c05); else foreign(c05);
     if (P == "C06" || (P == "C01" && layer == "L3")) own(c06); else foreign(c06); // the Interval rule is a rule body of every active atom
+    if (P == "C03") own(c03); else foreign(c03);
+    if (P == "C19") own(c19); else foreign(c19);
     for (auto &f : p.feats) r.classes.insert(f);
     r.classes.insert(out.verdict == SOLVED ? "verdict: solved" : out.verdict == UNSOLVABLE ? "verdict: unsolvable" : "verdict: rejected");
     r.classes.insert(p.planted ? "planted" : "free");
@@ -856,6 +926,10 @@ namespace
     else if (P == "C16") r.nontrivial = out.verdict == SOLVED && (p.feats.count("product with a non-constant factor") || p.feats.count("unary minus") || p.feats.count("division") || p.feats.count("boolean constant expression"));
     else if (P == "C17") r.nontrivial = nontrivial_objects(p, out);
     else if (P == "C18") r.nontrivial = true;
+    else if (P == "C03") { /* set by check_rules */ }
+#ifdef WITH_EXECUTOR
+    else if (P == "C19") r.nontrivial = g_exec_nontrivial;
+#endif
     r.render = log.str();
   }
 
@@ -863,7 +937,7 @@ namespace
   {
     pbt::Config c;
     c.default_budget_ms = 20000;
-    c.crash_is_violation = o.prop == "C18";
+    c.crash_is_violation = o.prop == "C18" || o.prop == "C19"; // C19: "a crash is not" an allowed outcome of execution
     return c;
   }
 } // namespace
